@@ -327,7 +327,7 @@ def design_check(pid, tier, kinds, over=None, invs=ALL_INV, props=ALL_PROP, time
             f.write('  %s = %s\n' % (k, v) if k not in ('NBlocks',) else '  %s <- %s\n' % (k, v))
         f.write('  FrameKinds = {%s}\n' % ', '.join('"%s"' % k for k in kinds))
         f.write('VIEW MCView\nCONSTRAINT QBound\nINVARIANTS %s\nPROPERTIES %s\nCHECK_DEADLOCK FALSE\n' % (invs, props))
-    res = run_tlc('MC_Swarm', cfg, pid, workers=8 if tier == 'quick' else 14, timeout=timeout, coverage=True, tag='design', xmx='12g')
+    res = run_tlc('MC_Swarm', cfg, pid, workers=8 if tier == 'quick' else 14, timeout=timeout if tier == 'quick' else 4 * 3600, coverage=True, tag='design', xmx='12g' if tier == 'quick' else '24g')
     if res['violation']:
         import re
         m = re.search(r'(Invariant|property) (\w+) is violated', res['stdout'])
